@@ -37,7 +37,9 @@ Viol(e) ==
       x == e.x
       ok == x \notin BadOf(e)
       k == Key(d2, n2, x)
-  IN IF conf # "" /\ e.conf # conf THEN "Frame: retained configuration changed"   \* instances are created from shallow
+  IN IF e.tabsb # e.tabsa THEN "Frame: class level property tables changed"   \* (of the datatype / accessible
+                                              \* classes: what one class declares never changes what another may declare)
+     ELSE IF conf # "" /\ e.conf # conf THEN "Frame: retained configuration changed"   \* instances are created from shallow
                                               \* copies of ONE configuration object: using it must not change it
      ELSE IF DOMAIN nd # Live \cup {x} THEN "Frame: set of live objects"
      ELSE IF \E y \in Live \ {x} : nd[y] # desc[y] THEN "Frame"
